@@ -435,7 +435,8 @@ class Engine:
         st.mem[oid] = Obj(size, kind, st.id)
         return oid
 
-    def getobj(s, st, p, what, write=False, stack=None):
+    def getobj(s, st, p, what, write=False, stack=None, own=False):
+        # own: a private (copy-on-write) clone is wanted because a READ may split cells; unlike write it may touch constants
         if p.obj is None:
             s.fail(st, 'NULL-DEREF', f'{what} through null/integer pointer {p.off}', stack=stack)
             raise PathEnd()
@@ -456,7 +457,7 @@ class Engine:
         if ob.scoped:
             s.fail(st, 'USE-AFTER-SCOPE', f'{what} of object {p.obj} after lifetime.end', stack=stack)
             raise PathEnd()
-        if write and ob.owner != st.id:
+        if (write or own) and ob.owner != st.id:
             ob = ob.clone(st.id)
             st.mem[p.obj] = ob
         if write and ob.kind == 'constant':
@@ -685,7 +686,7 @@ class Engine:
         off = s.bounds(st, ob, p, sz, 'load', stack)
         if off is not None:
             if ob.owner != st.id and ob.cells.get(off) is None:
-                ob = s.getobj(st, p, 'load', write=True, stack=stack)
+                ob = s.getobj(st, p, 'load', own=True, stack=stack)
             return s.load_scalar(st, ob, off, sz, tk, bits)
         return s.load_symbolic(st, p, ob, sz, tk, bits)
 
@@ -740,7 +741,7 @@ class Engine:
         if cands is None:
             return s.load_uf(st, p, ob, sz, tk, bits)
         if ob.owner != st.id:
-            ob = s.getobj(st, p, 'load', write=True)
+            ob = s.getobj(st, p, 'load', own=True)
         feas = []
         for k in cands:
             if s.check(st, s.A.off_eq(p.off, k)) != 'unsat':
@@ -912,7 +913,7 @@ class Engine:
         if off is None:
             raise Inconclusive(f'{what} with a symbolic address')
         if ob.owner != st.id:
-            ob = s.getobj(st, p, what, write=True, stack=stack)
+            ob = s.getobj(st, p, what, own=True, stack=stack)
         out = []
         for i in range(n):
             out.append(s.load_scalar(st, ob, off + i, 1, 'int', 8))
@@ -936,7 +937,7 @@ class Engine:
         s.store_scalar(st, ob, off, sz, v)
 
     def load_raw(s, st, p, sz):
-        ob = s.getobj(st, p, 'load', write=True)
+        ob = s.getobj(st, p, 'load', own=True)
         off = s.A.off_conc(p.off)
         if off is None: raise Inconclusive('raw load at symbolic offset')
         return s.load_scalar(st, ob, off, sz, 'int', 8 * sz)
